@@ -242,6 +242,10 @@ def r4(ctx, rule='C10.R4', only_status=False):
     LEN = call('alloc::vec::Vec::<T, A>::len', MOVES)
     LAST = ('index', MOVES, ('bin', 'Sub', LEN, ('int', 1, 'usize')))
     STM = call('game::Game::side_to_move', ('param', 1))
+    LASTOPT = call('core::slice::<impl [T]>::last', MOVES)
+    BRANCH = call('<core::option::Option<T> as core::ops::try_trait::Try>::branch', LASTOPT)
+    LASTACTS = [LAST, ('mem', ('h', ('field', ('variant', BRANCH, 'Continue'), '0'))), ('mem', ('h', ('field', ('variant', LASTOPT, 'Some'), '0'))),
+                ('field', ('variant', BRANCH, 'Continue'), '0'), ('field', ('variant', LASTOPT, 'Some'), '0')]
     res = lambda v: ('agg', 'core::option::Option', 'Some', (('0', ('enum', 'game::GameResult', v)),))
     none = ('agg', 'core::option::Option', 'None', ())
     unknown = []
@@ -263,9 +267,23 @@ def r4(ctx, rule='C10.R4', only_status=False):
                     m = match(call('<color::Color as core::cmp::PartialEq>::eq', STM, V('c')), c)
                     if m is not None and m['c'][0] == 'enum':
                         return as_bool(stm == m['c'][2], vals)
+                    # `self.moves.last()` idioms: `?`, is_some/is_none, match on the option / on the action
+                    isact = lambda e: any(match(p_, e) is not None for p_ in LASTACTS)
+                    if match(('discr', BRANCH), c) is not None:
+                        return 0 if last is not None else 1
+                    if match(('discr', LASTOPT), c) is not None:
+                        return 1 if last is not None else 0  # Option: None = 0, Some = 1
+                    if match(call('core::option::Option::<T>::is_some', LASTOPT), c) is not None or match(call('core::option::Option::<T>::is_none', LASTOPT), c) is not None:
+                        return as_bool((last is not None) == c[1].endswith('is_some'), vals)
+                    if c[0] == 'discr' and isact(c[1]) and last is not None:
+                        return f.enum_discr(ACT, last[0])
+                    if c[0] == 'discr' and c[1][0] == 'field' and c[1][2] == '0' and c[1][1][0] == 'variant' and isact(c[1][1][1]) \
+                            and last is not None and len(last) == 2 and c[1][1][2] == last[0]:
+                        return f.enum_discr('color::Color', last[1])
                     unknown.append(c)
                     return None
-                table[(st_, stm, last)] = eval_tree(r, decide)
+                table[(st_, stm, last)] = [none if (l[0] == 'call' and l[1].endswith('::from_residual') and 'Option' in l[1]) else l
+                                           for l in eval_tree(r, decide)]
     if unknown:
         ctx.inconclusive(R, 'result() tests something unexpected: ' + sh(unknown[0], 200))
         return
@@ -305,6 +323,8 @@ def r5(ctx):
         w = where(s.body)
         loops = for_loops(s)
         ok = False
+        for l_ in loops:
+            require_no_break(ctx, R, s, l_, 'game::Game::current_position', 'the action log', 'later moves are not replayed')
         if len(loops) == 1:
             l = loops[0]
             src = norm(l['source']) if l['source'] is not None else None
